@@ -50,6 +50,17 @@ def rand_pattern(n, rng):
     return "".join(out)
 
 
+def patterns_for(sizes, rng):
+    """patterns for one entry; two equivalents of a reactant give the same pattern text twice"""
+    memo = {}
+    out = []
+    for z in sizes:
+        if z not in memo or rng.random() < 0.4:
+            memo[z] = rand_pattern(z, rng)
+        out.append(memo[z])
+    return out
+
+
 def rand_table(rng):
     """a table well outside the TLC bound: 2-5 conditions, 1-7 reactions, 0-5 patterns of 0-16 atoms per entry,
     ties made likely, sometimes conditions of unequal length"""
@@ -62,6 +73,8 @@ def rand_table(rng):
         for p in range(n):
             r = rng.random()
             sizes = list(base[p])
+            if sizes and rng.random() < 0.3:
+                sizes.insert(rng.randrange(len(sizes) + 1), rng.choice(sizes))   # a second equivalent
             if r < 0.35:
                 pass                                  # identical -> full tie
             elif r < 0.6:
@@ -112,7 +125,7 @@ def main():
         real = []
         for c, cond in enumerate(conds, 1):
             real.append([{"id": "r%d" % e["id"],
-                          "mcs_results": ([rand_pattern(z, rng) for z in e["sizes"]] if "sizes" in e
+                          "mcs_results": (patterns_for(e["sizes"], rng) if "sizes" in e
                                           else smarts_for(e["tot"], e["first"])),
                           "sorted_reactants": ["C" * max(1, e["tot"])], "issue": "", "_tag": [c, p]}
                          for p, e in enumerate(cond, 1)])
